@@ -1,37 +1,51 @@
 (** C01 — token flow conforms to BPMN semantics: every enabled activity runs exactly once.
     Model: Model/Blocks.v — the token game of block-structured programs (sequence, parallel,
     exclusive, inclusive with default, do-while loop, task with conditional outgoing flows, embedded
-    sub-process), variables written by the answers steering the conditions. *)
+    sub-process, end events inside branches), variables written by the answers steering the conditions. *)
 From BV Require Import Model.Blocks Model.Cohort Model.FlowLeave Proofs.BlocksProofs Proofs.TokenGameProofs Proofs.FlowLeaveProofs.
 From Coq Require Import Permutation.
 Open Scope nat_scope.
 
 (* NEVER SKIPPED WHEN ENABLED / NO DEADLOCK — every state of a run that is not complete (and is not
-   a loop that needs no answer and whose condition stays true) has a pending request; the states
-   reached from a program's start by any answers are such states *)
-Theorem C01_no_deadlock : forall r, wfr r -> nospin r -> fin r = false -> pending r <> [].
+   a loop that needs no answer and whose condition stays true) has a pending request, or contains a
+   parallel block one of whose branches was consumed by an end event (its join waits for ever: the only
+   dead end of the game); programs in which no end event sits inside a parallel block never get there *)
+Theorem C01_no_deadlock_but_ended_parallel_branch : forall r,
+  wfr r -> nospin r -> complete r = false -> pending r = [] -> stuck_par r.
+Proof. exact progress_or_stuck. Qed.
+Print Assumptions C01_no_deadlock_but_ended_parallel_branch.
+Theorem C01_no_deadlock : forall r, wfr r -> nospin r -> okR r -> complete r = false -> pending r <> [].
 Proof. exact progress. Qed.
 Print Assumptions C01_no_deadlock.
-Theorem C01_reachable_states_wellformed : forall e b, wfr (start e b) /\ forall e' r t, wfr r -> wfr (answer e' r t).
-Proof. intros e b. split; [apply wfr_start|intros; apply wfr_answer; auto]. Qed.
+Theorem C01_reachable_states_wellformed : forall e b,
+  wfr (start e b) /\ (endsafe b = true -> okR (start e b)) /\
+  forall e' r t, (wfr r -> wfr (answer e' r t)) /\ (okR r -> okR (answer e' r t)).
+Proof.
+  intros e b. split; [apply wfr_start|]. split; [apply okR_start|].
+  intros e' r t. split; [apply wfr_answer|apply okR_answer].
+Qed.
 Print Assumptions C01_reachable_states_wellformed.
 
-(* EXACTLY AS OFTEN AS PRESCRIBED, IN EVERY ORDER — for data the answers do not change: any run that
-   answers pending requests (in any order, any interleaving of parallel branches) until completion
-   answers each task exactly as many times as the data prescribes — never twice for one token,
-   never skipped *)
-Theorem C01_every_order_same_requests : forall e b ts l,
-  exec_tasks e b = Some l -> valid_run e (start e b) ts -> Permutation l ts.
+(* EXACTLY AS OFTEN AS PRESCRIBED, IN EVERY ORDER, AND THE SAME END EVENTS — for data the answers do not
+   change: any run that answers pending requests (in any order, any interleaving of parallel branches)
+   until completion answers each task exactly as many times as the data prescribes — never twice for
+   one token, never skipped —, reaches exactly the end events the data prescribes, and a token leaves
+   the program (reaches its final end event) iff the data prescribes that *)
+Theorem C01_every_order_same_requests_and_end_events : forall e b ts l n x,
+  exec e b = Some (l, n, x) -> valid_run e (start e b) ts ->
+  Permutation l ts /\ Permutation n (ends_start e b ++ run_ends e (start e b) ts) /\
+  x = fin (final e (start e b) ts).
 Proof. exact order_independent. Qed.
-Print Assumptions C01_every_order_same_requests.
+Print Assumptions C01_every_order_same_requests_and_end_events.
 
 (* an answer to a task that is not pending changes nothing (no token moves without its answer) *)
-Theorem C01_only_answers_move_tokens : forall e r t, wfr r -> ~ In t (pending r) -> answer e r t = r.
-Proof. exact answer_not_pending. Qed.
+Theorem C01_only_answers_move_tokens : forall e r t, wfr r -> ~ In t (pending r) ->
+  answer e r t = r /\ ends_answer e r t = [].
+Proof. intros e r t W N. split; [apply answer_not_pending|apply ends_answer_not_pending]; auto. Qed.
 Print Assumptions C01_only_answers_move_tokens.
 
 (* sub-processes are transparent to the token game (C12) *)
-Theorem C01_subprocess_transparent : forall b e ops, behaviour (flatten b) e ops = behaviour b e ops.
+Theorem C01_subprocess_transparent : forall b e ops, endfree b = true -> behaviour (flatten b) e ops = behaviour b e ops.
 Proof. exact inline_equiv. Qed.
 Print Assumptions C01_subprocess_transparent.
 
@@ -67,7 +81,8 @@ Proof. exact nested_inclusive_refuted. Qed.
 Print Assumptions C01_conformance_refuted_for_gateways_nested_in_inclusive.
 
 Example C01_nonvacuous :
-  let b := BSeq (BPar (BTask 1) (BSub (BIncl 0 1 (BTask 2) (BTask 3) (BTask 4)))) (BCond 5 2 (BTask 6) (BTask 7)) in
+  let b := BSeq (BPar (BTask 1) (BSub (BIncl 0 1 (BSeq (BTask 2) (BEnd 8)) (BTask 3) (BTask 4)))) (BCond 5 2 (BTask 6) (BSeq (BTask 7) (BEnd 9))) in
   let e := [true; true; false; false] in
-  exec_tasks e b = Some [1; 2; 3; 5; 7] /\ valid_run e (start e b) [3; 1; 2; 5; 7] /\ valid_run e (start e b) [2; 3; 1; 5; 7].
+  exec e b = Some ([1; 2; 3; 5; 7], [8; 9], false) /\ valid_run e (start e b) [3; 1; 2; 5; 7] /\ valid_run e (start e b) [2; 3; 1; 5; 7]
+  /\ run_ends e (start e b) [3; 1; 2; 5; 7] = [8; 9].
 Proof. exact order_independent_nonvacuous. Qed.
